@@ -250,14 +250,14 @@ def _shards(tier):
         for o0, o1 in ((1, 2), (0, 3)):
             b2 = {"nthreads": 2, "o0": o0, "o1": o1}
             for fa in range(-1, 12):
-                out.append((dict(b2, ntests=1, depth=14, fault_at=fa, ctl_calls=0), 3000))
+                out.append((dict(b2, ntests=1, depth=14, fault_at=fa, ctl_calls=0, tagset=(0, 3) if fa >= 0 else (0, 1, 2, 3)), 3000))
             for fa in range(-1, 20):
-                out.append((dict(b2, ntests=1, depth=10, fault_at=fa, ctl_calls=3), 3000))
+                out.append((dict(b2, ntests=1, depth=10, fault_at=fa, ctl_calls=3, tagset=(0, 3)), 3000))
             for fa in range(-1, 24):
-                out.append((dict(b2, ntests=2, depth=10, fault_at=fa, ctl_calls=0), 3000))
+                out.append((dict(b2, ntests=2, depth=9, fault_at=fa, ctl_calls=0, tagset=(1, 3) if fa >= 0 else (0, 1, 2, 3)), 3000))
         for fa in range(-1, 18):
-            out.append(({"nthreads": 3, "o0": 1, "o1": 2, "ntests": 1, "depth": 8, "fault_at": fa, "ctl_calls": 0}, 3000))
-        out.append((dict(base, ntests=3, depth=8, fault_at=-1, ctl_calls=0), 3000))
+            out.append(({"nthreads": 3, "o0": 1, "o1": 2, "ntests": 1, "depth": 7, "fault_at": fa, "ctl_calls": 0, "tagset": (3,) if fa >= 0 else (0, 3)}, 3000))
+        out.append((dict(base, ntests=3, depth=8, fault_at=-1, ctl_calls=0, tagset=(0, 3)), 3000))
     return out
 
 
@@ -277,8 +277,9 @@ HARNESSES = [
                              "fault; (B) additionally startTestRun before and stop/done/stopTestRun after, k = 7, faults at {none, 0, 6, "
                              "13, 16}; (C) 2 tests per thread, k = 7, faults at {none, 5, 14}, the second test starting "
                              "either at its own clock reading or (tie) at the first test's end time",
-                    "thorough": "two outcome pairs; (A) k = 14; (B) k = 10 with every fault position; (C) k = 10 with every fault position; "
-                                "3 threads x 1 test with k = 8 and every fault position; 2 threads x 3 tests with k = 8"},
+                    "thorough": "two outcome pairs; (A) k = 14; (B) k = 10 with every fault position; (C) k = 9 with every fault position; "
+                                "3 threads x 1 test with k = 7 and every fault position; 2 threads x 3 tests with k = 8; all four tag modes in "
+                                "the fault-free shards, two of them in the others"},
             rule="one schedule per path; non-trivial = at least one point with more than one runnable thread",
             twin_fix={"nthreads": 2, "ntests": 1, "depth": 4, "fault_at": -1, "ctl_calls": 0, "o0": 1, "o1": 2},
             describe=_describe,
